@@ -118,7 +118,7 @@ pub fn k_c29_validate_rejects_unsatisfying() {
     vcheck!("C29.validate.accepted_unsatisfying_trace", false);
 }
 
-//# harness: fn=TraceTable::init, TraceTable::new + fill, fragments(..) + fill; label=bounded(width 2, length 8); tier=quick; timeout=600
+//# harness: fn=TraceTable::init, TraceTable::new + fill, fragments(4) + TraceTableFragment::fill, offset, index; label=bounded(width 2, length 8, two fragments of 4 rows); tier=quick; timeout=900
 #[cfg_attr(kani, kani::proof)]
 #[cfg_attr(kani, kani::unwind(12))]
 #[cfg_attr(kani, kani::stub(alloc::fmt::format, vs::fake_format))]
@@ -159,5 +159,120 @@ pub fn k_c29_trace_table_builders_agree() {
         r += 1;
     }
     vcheck!("C29.trace_table.fill_equals_init", same);
+    // the same table filled through two fragments of 4 rows: a fragment starts from the row the sequential fill
+    // has at its offset (the documented use: the caller computes each fragment's first state)
+    let mut t_frag = TraceTable::<Tiny>::new(2, 8);
+    for mut frag in t_frag.fragments(4) {
+        let off = frag.offset();
+        vcheck!("C29.trace_table.fragment_offsets", off == 4 * frag.index() && frag.length() == 4 && frag.width() == 2);
+        let (s0, s1) = (t_init.get(0, off), t_init.get(1, off));
+        frag.fill(
+            |state| {
+                state[0] = s0;
+                state[1] = s1;
+            },
+            |_, state| {
+                let nx = state[0] + state[0] - b;
+                let ny = state[1] + state[0];
+                state[0] = nx;
+                state[1] = ny;
+            },
+        );
+    }
+    let mut same_f = true;
+    let mut r = 0;
+    while r < 8 {
+        same_f = same_f && t_init.get(0, r) == t_frag.get(0, r) && t_init.get(1, r) == t_frag.get(1, r);
+        r += 1;
+    }
+    vcheck!("C29.trace_table.fragments_equal_init", same_f);
     vreach!("C29.builders.reach");
+}
+
+/// second mock AIR: the same transition constraint, TWO exempt steps (transitions 6 -> 7 and 7 -> 0 are not
+/// checked, so cell 7 is constrained by no transition), a single assertion on cell 0 and a sequence assertion
+/// on cells 3 and 7 - cell 7 is constrained only as the *second* step of a multi-step assertion
+pub struct MockAir2 {
+    ctx: AirContext<Tiny>,
+    start: Tiny,
+    k: [Tiny; 2],
+    seq: [Tiny; 2],
+}
+pub struct Pub2(Tiny, Tiny, Tiny, Tiny, Tiny);
+impl math::ToElements<Tiny> for Pub2 {
+    fn to_elements(&self) -> Vec<Tiny> {
+        alloc::vec![self.0, self.1, self.2, self.3, self.4]
+    }
+}
+impl Air for MockAir2 {
+    type BaseField = Tiny;
+    type PublicInputs = Pub2;
+    fn new(trace_info: TraceInfo, pi: Pub2, options: ProofOptions) -> Self {
+        let degrees = alloc::vec![TransitionConstraintDegree::with_cycles(1, alloc::vec![2])];
+        let ctx = AirContext::new(trace_info, degrees, 3, options).set_num_transition_exemptions(2);
+        MockAir2 { ctx, start: pi.0, k: [pi.1, pi.2], seq: [pi.3, pi.4] }
+    }
+    fn context(&self) -> &AirContext<Tiny> {
+        &self.ctx
+    }
+    fn evaluate_transition<E: FieldElement<BaseField = Tiny>>(
+        &self,
+        frame: &EvaluationFrame<E>,
+        periodic_values: &[E],
+        result: &mut [E],
+    ) {
+        result[0] = frame.next()[0] - frame.current()[0] - periodic_values[0];
+    }
+    fn get_assertions(&self) -> Vec<Assertion<Tiny>> {
+        alloc::vec![Assertion::single(0, 0, self.start), Assertion::sequence(0, 3, 4, alloc::vec![self.seq[0], self.seq[1]])]
+    }
+    fn get_periodic_column_values(&self) -> Vec<Vec<Tiny>> {
+        alloc::vec![alloc::vec![self.k[0], self.k[1]]]
+    }
+}
+
+fn honest_column(start: Tiny, k0: Tiny, k1: Tiny) -> Vec<Tiny> {
+    let mut col = Vec::new();
+    let mut v = start;
+    let mut i = 0;
+    while i < 8 {
+        col.push(v);
+        v = v + if i % 2 == 0 { k0 } else { k1 };
+        i += 1;
+    }
+    col
+}
+
+//# harness: fn=Trace::validate (two exemptions, sequence assertion: accepts every satisfying trace, cell 7 free of transitions); label=bounded(F_17, mock AIR 2, trace length 8, all (start, k0, k1), cell 7 arbitrary and asserted as such); tier=quick; uses=honest_column; timeout=900
+#[cfg_attr(kani, kani::proof)]
+#[cfg_attr(kani, kani::unwind(12))]
+#[cfg_attr(kani, kani::stub(alloc::fmt::format, vs::fake_format))]
+pub fn k_c29_validate2_accepts_satisfying() {
+    let (start, k0, k1) = (any_tiny(), any_tiny(), any_tiny());
+    let mut col = honest_column(start, k0, k1);
+    // with two exemptions no transition constrains cell 7: any value there satisfies the AIR as long as the
+    // sequence assertion names that value
+    col[7] = any_tiny();
+    let (a3, a7) = (col[3], col[7]);
+    let trace = TraceTable::init(alloc::vec![col]);
+    let air = MockAir2::new(trace.info().clone(), Pub2(start, k0, k1, a3, a7), options());
+    trace.validate::<MockAir2, Tiny>(&air, None);
+    vreach!("C29.validate2.accepts.reach");
+}
+
+//# harness: fn=Trace::validate (violation only at the second step of a sequence assertion); label=bounded(F_17, mock AIR 2, trace length 8, cell 7 differs from the asserted value); tier=quick; panics=ignore; replay=no; uses=honest_column; timeout=900
+#[cfg_attr(kani, kani::proof)]
+#[cfg_attr(kani, kani::unwind(12))]
+#[cfg_attr(kani, kani::stub(alloc::fmt::format, vs::fake_format))]
+pub fn k_c29_validate2_rejects_second_assertion_step() {
+    let (start, k0, k1) = (any_tiny(), any_tiny(), any_tiny());
+    let col = honest_column(start, k0, k1);
+    let a3 = col[3];
+    let wrong = any_tiny();
+    vs::assume(wrong != col[7]);
+    let trace = TraceTable::init(alloc::vec![col]);
+    // the AIR asserts `wrong` at step 7 while the trace holds something else there; nothing else is violated
+    let air = MockAir2::new(trace.info().clone(), Pub2(start, k0, k1, a3, wrong), options());
+    trace.validate::<MockAir2, Tiny>(&air, None);
+    vcheck!("C29.validate.accepted_trace_violating_second_step_of_sequence_assertion", false);
 }
